@@ -141,9 +141,9 @@ impl<'a> LoweringManager<'a> {
     };
     let mut instructions =
       function.body.iter().flat_map(|it| instance.lower_stmt(it)).collect_vec();
-    let return_value_expr = instance.lower_expr(&function.return_value);
     // Wrap return value with ref.as_non_null for reference types since locals are nullable
     let return_type = instance.type_cx.lower(&function.type_.return_type);
+    let return_value_expr = instance.lower_expr_for(&function.return_value, return_type);
     let return_value_expr =
       if matches!(return_type, wasm::Type::Int31 | wasm::Type::Eq | wasm::Type::Reference(_)) {
         wasm::InlineInstruction::RefAsNonNull(Box::new(return_value_expr))
@@ -264,10 +264,10 @@ impl<'a> LoweringManager<'a> {
             (false, false, None, false)
           };
         // Get the target function's expected parameter types for direct calls
-        let callee_param_types = if let lir::Expression::FnName(_, fn_type) = callee {
-          Some(&fn_type.argument_types)
-        } else {
-          None
+        let callee_param_types = match callee {
+          lir::Expression::FnName(_, fn_type) => Some(&fn_type.argument_types),
+          lir::Expression::Variable(_, lir::Type::Fn(fn_type)) => Some(&fn_type.argument_types),
+          _ => None,
         };
         let argument_instructions = arguments
           .iter()
@@ -360,8 +360,8 @@ impl<'a> LoweringManager<'a> {
         let mut s2 = s2.iter().flat_map(|it| self.lower_stmt(it)).collect_vec();
         for (n, t, e1, e2) in final_assignments {
           let wasm_type = self.type_cx.lower(t);
-          let e1 = self.lower_expr(e1);
-          let e2 = self.lower_expr(e2);
+          let e1 = self.lower_expr_for(e1, wasm_type);
+          let e2 = self.lower_expr_for(e2, wasm_type);
           s1.push(wasm::Instruction::Inline(self.set(*n, wasm_type, e1)));
           s2.push(wasm::Instruction::Inline(self.set(*n, wasm_type, e2)));
         }
@@ -407,8 +407,8 @@ impl<'a> LoweringManager<'a> {
         let break_collector = *break_collector;
         let break_collector_type = *break_collector_type;
         if let Some(c) = break_collector {
-          let e = self.lower_expr(e);
           let t = break_collector_type.unwrap();
+          let e = self.lower_expr_for(e, t);
           vec![
             wasm::Instruction::Inline(self.set(c, t, e)),
             wasm::Instruction::UnconditionalJump(exit_label),
@@ -430,7 +430,7 @@ impl<'a> LoweringManager<'a> {
           .iter()
           .map(|it| {
             let t = self.type_cx.lower(&it.type_);
-            let e = self.lower_expr(&it.initial_value);
+            let e = self.lower_expr_for(&it.initial_value, t);
             wasm::Instruction::Inline(self.set(it.name, t, e))
           })
           .collect_vec();
@@ -438,7 +438,7 @@ impl<'a> LoweringManager<'a> {
           statements.iter().flat_map(|it| self.lower_stmt(it)).collect_vec();
         for v in loop_variables {
           let t = self.type_cx.lower(&v.type_);
-          let e = self.lower_expr(&v.loop_value);
+          let e = self.lower_expr_for(&v.loop_value, t);
           loop_instructions.push(wasm::Instruction::Inline(self.set(v.name, t, e)));
         }
         loop_instructions.push(wasm::Instruction::UnconditionalJump(continue_label));
@@ -479,9 +479,9 @@ impl<'a> LoweringManager<'a> {
       }
       lir::Statement::LateInitAssignment { name, assigned_expression } => {
         // For late init, the type was already declared, so we just get it from the expression
-        let assigned = self.lower_expr(assigned_expression);
         // The type should already be in local_variables from LateInitDeclaration
         let t = self.local_variables.get(name).copied().unwrap_or(wasm::Type::Int32);
+        let assigned = self.lower_expr_for(assigned_expression, t);
         vec![wasm::Instruction::Inline(self.set(*name, t, assigned))]
       }
       lir::Statement::LateInitDeclaration { name, type_ } => {
@@ -496,7 +496,10 @@ impl<'a> LoweringManager<'a> {
         let field_types = self.type_field_mappings.get(&type_ref);
         let mut wasm_expression_list = Vec::with_capacity(expression_list.len());
         for (i, e) in expression_list.iter().enumerate() {
-          let lowered = self.lower_expr(e);
+          let lowered = match field_types.and_then(|fields| fields.get(i)) {
+            Some(field_type) => self.lower_expr_for(e, *field_type),
+            None => self.lower_expr(e),
+          };
           // If the field expects a reference type and we have Int32Literal(0), wrap with ref.i31
           let needs_i31 = if let Some(fields) = field_types {
             if let Some(field_type) = fields.get(i) {
@@ -553,6 +556,23 @@ impl<'a> LoweringManager<'a> {
         wasm::InlineInstruction::Const(i32::try_from(*index).unwrap())
       }
     }
+  }
+
+  /// Lowers `e` for a place whose declared type is `target`. A variable whose local is `(ref eq)`
+  /// although it is used at a concrete struct type (the `_this` of a method: every method can be
+  /// called through a closure, so its context parameter is type-erased) is downcast when the place
+  /// wants a concrete struct reference; `(ref eq)` is not a subtype of it.
+  fn lower_expr_for(&mut self, e: &lir::Expression, target: wasm::Type) -> wasm::InlineInstruction {
+    let lowered = self.lower_expr(e);
+    if let (lir::Expression::Variable(n, _), wasm::Type::Reference(t)) = (e, target)
+      && self.local_variables.get(n).copied() == Some(wasm::Type::Eq)
+    {
+      return wasm::InlineInstruction::Cast {
+        pointer_type: lir::Type::Id(t),
+        value: Box::new(lowered),
+      };
+    }
+    lowered
   }
 
   fn lower_expr_with_reference_type(
